@@ -94,6 +94,10 @@ def deref {σ α : Type} : Option α → GoM σ α
 /-- a pure computation that may panic, inside the state monad -/
 def liftRes {σ α : Type} (r : Res α) : GoM σ α := fun s => (r, s)
 
+/-- `m[k] = v` on a Go map (association list): replace the entry with that key, else add one (at the end) -/
+def mapSet {α : Type} (m : List (Int × α)) (k : Int) (v : α) : List (Int × α) :=
+  if m.any (·.1 == k) then m.map (fun p => if p.1 == k then (k, v) else p) else m ++ [(k, v)]
+
 /-- `m[k]` on a map field that may be nil: a nil map reads as the zero value -/
 def mapGetOpt (m : Option (List (Int × Int))) (k : Int) : Int :=
   match m with
